@@ -49,7 +49,8 @@ def _shift_raw(val, shift, n_word):
     Python integers are used when the shifted value could overflow 64 bits integers.
     """
     if shift > 0 and n_word is not None and n_word + shift >= 64 and isinstance(val, (np.ndarray, np.generic)) and val.dtype != object:
-        val = np.array(val).astype(object)
+        # (an object array is returned, even for a single value, to not be confused with unsigned 64 bits values)
+        return np.array(np.array(val).astype(object) * 2**shift, dtype=object)
     return val * 2**shift
 
 try:
